@@ -91,9 +91,14 @@ func (np *nodePool) add(head int32, key []byte) (int32, error) {
 		return -1, err
 	}
 
-	np.array[node].next = head
 	//set the node with key
-	np.pool.Set(node, key)
+	if err := np.pool.Set(node, key); err != nil {
+		// the pool refused the key: give the node back, nothing was added
+		np.array[node].next = np.freeNode
+		np.freeNode = node
+		return -1, err
+	}
+	np.array[node].next = head
 
 	np.length += 1
 	return node, nil
